@@ -26,6 +26,7 @@ func init() {
 }
 
 func runC04(c *Ctx) {
+	c04Frames(c)
 	c04Contained(c)
 	c04HandlerShape(c)
 	c.R.Rule("serialisation", "Server.ServeHTTP registers a deferred recover before Transport.Do; the websocket operation goroutine registers a deferred recover that sends an error frame before it dispatches", 2)
@@ -45,7 +46,12 @@ func userCallKind(g *GenPkg, call ssa.CallInstruction) string {
 		}
 		return ""
 	}
-	if cc.StaticCallee() != nil {
+	if callee := cc.StaticCallee(); callee != nil {
+		// user functions bound by the configuration (custom scalar marshal/unmarshal functions, model methods):
+		// defined outside the gqlgen runtime, the standard library and gqlparser, and not in a generated file
+		if isUserFunc(g, callee) {
+			return "userfunc"
+		}
 		return ""
 	}
 	// dynamic call through a loaded struct field
@@ -414,4 +420,147 @@ func c04Serialisation(c *Ctx) {
 		}
 	}
 	c.R.Check(ok, "wsConnection.subscribe$go/recover-sends-error", c.pos(sub.Pos()), "operation goroutine recovers and sends an error frame", "the websocket operation goroutine does not recover panics into an error frame: a serialisation panic kills the whole process")
+}
+
+func isUserFunc(g *GenPkg, f *ssa.Function) bool {
+	if f.Pkg == nil || f.Synthetic != "" {
+		return false
+	}
+	path := f.Pkg.Pkg.Path()
+	first := path
+	if i := strings.Index(path, "/"); i >= 0 {
+		first = path[:i]
+	}
+	if !strings.Contains(first, ".") {
+		return false // standard library
+	}
+	if strings.HasPrefix(path, pkgGraphql) || strings.HasPrefix(path, "github.com/vektah/gqlparser") || strings.HasPrefix(path, "golang.org/x/") ||
+		strings.HasSuffix(path, "/plugin/federation/fedruntime") || path == pkgComplex {
+		return false
+	}
+	if f.Pkg == g.SSA {
+		// same package as the generated code: user code iff its file was not emitted by the generator
+		file := g.fileOf(f)
+		if file == "" {
+			return false
+		}
+		_, generated := g.Mat.Files[file]
+		return !generated
+	}
+	return true
+}
+
+// c04Frames: the mechanism itself, independent of which user code today's probe schemas reach.
+func c04Frames(c *Ctx) {
+	c.R.Rule("frames", "every generated field function registers its deferred recover before any call other than its field-context function and WithFieldContext; every field-context function that coerces arguments registers one before the coercion; every closure handed to FieldSet.Concurrently (through innerFunc) and every list-element closure registers one before its first call", 1)
+	total := 0
+	for _, g := range c.Gen {
+		if c.cfgBool(g, "omit_panic_handler") {
+			continue
+		}
+		for _, fn := range c.genFuncs(g) {
+			kind := ""
+			name := fn.Name()
+			allowed := func(n string) bool { return false }
+			switch {
+			case fn.Parent() == nil && strings.HasPrefix(name, "fieldContext_"):
+				hasArgs := false
+				for _, call := range an.CallsIn(fn, func(_ ssa.CallInstruction, ci an.CalleeInfo) bool {
+					return ci.Static != nil && strings.HasPrefix(ci.Static.Name(), "field_") && strings.HasSuffix(ci.Static.Name(), "_args")
+				}) {
+					_ = call
+					hasArgs = true
+				}
+				if !hasArgs {
+					continue
+				}
+				kind = "field-context"
+			case fn.Parent() == nil && strings.HasPrefix(name, "_") && isFieldFuncSig(fn):
+				kind = "field"
+				allowed = func(n string) bool {
+					return strings.Contains(n, ".fieldContext_") || strings.HasPrefix(n, "fieldContext_") || n == pkgGraphql+".WithFieldContext" || strings.Contains(n, ").fieldContext_")
+				}
+			case fn.Parent() != nil && isInnerFunc(fn):
+				kind = "innerFunc"
+			case fn.Parent() != nil && isListElemClosure(fn):
+				kind = "list-element"
+			default:
+				continue
+			}
+			total++
+			var rec *ssa.Defer
+			for _, b := range fn.Blocks {
+				for _, in := range b.Instrs {
+					if d, ok := in.(*ssa.Defer); ok && deferRecovers(d) && rec == nil {
+						rec = d
+					}
+				}
+			}
+			key := "gen:" + g.Name + "/" + topFn(fn).Name() + "/" + kind
+			if rec == nil {
+				c.R.Bad(key, c.pos(fn.Pos()), "no deferred recover in this "+kind+" function: a panic below it is not contained at this position")
+				continue
+			}
+			bad := ""
+			for _, b := range fn.Blocks {
+				for _, in := range b.Instrs {
+					call, ok := in.(*ssa.Call)
+					if !ok || !mayPanicCall(in) {
+						continue
+					}
+					if an.Before(rec, in) {
+						continue
+					}
+					n := an.CalleeOf(call).FullName()
+					if allowed(n) {
+						continue
+					}
+					if _, isMC := call.Call.Value.(*ssa.MakeClosure); isMC {
+						continue
+					}
+					bad = "the call of " + n + " at " + c.ipos(in) + " runs before the recover is registered"
+				}
+			}
+			c.R.Check(bad == "", key, c.ipos(rec), "recover registered first", bad)
+		}
+	}
+	c.R.SetFloor(total)
+	if total < 300 {
+		c.R.Fail("frames examined only %d functions", total)
+	}
+}
+
+func isFieldFuncSig(fn *ssa.Function) bool {
+	ps := fn.Signature.Params()
+	for i := 0; i < ps.Len(); i++ {
+		if an.NamedIs(ps.At(i).Type(), pkgGraphql, "CollectedField") {
+			return fn.Signature.Results().Len() == 1
+		}
+	}
+	return false
+}
+
+// isInnerFunc: closure with signature func(ctx, *graphql.FieldSet) graphql.Marshaler.
+func isInnerFunc(fn *ssa.Function) bool {
+	ps := fn.Signature.Params()
+	return ps.Len() == 2 && an.NamedIs(ps.At(1).Type(), pkgGraphql, "FieldSet") && fn.Signature.Results().Len() == 1
+}
+
+// isListElemClosure: closure func(i int) inside a function that owns a sync.WaitGroup.
+func isListElemClosure(fn *ssa.Function) bool {
+	ps := fn.Signature.Params()
+	if ps.Len() != 1 || fn.Signature.Results().Len() != 0 {
+		return false
+	}
+	if b, ok := ps.At(0).Type().Underlying().(*types.Basic); !ok || b.Kind() != types.Int {
+		return false
+	}
+	for _, b := range fn.Parent().Blocks {
+		for _, in := range b.Instrs {
+			if al, ok := in.(*ssa.Alloc); ok && an.NamedIs(al.Type(), "sync", "WaitGroup") {
+				return true
+			}
+		}
+	}
+	return false
 }
